@@ -6,7 +6,11 @@ import (
 	"fmt"
 	"testing"
 
+	cpb "github.com/google/fhir/go/proto/google/fhir/proto/r4/core/codes_go_proto"
 	dtpb "github.com/google/fhir/go/proto/google/fhir/proto/r4/core/datatypes_go_proto"
+	opb "github.com/google/fhir/go/proto/google/fhir/proto/r4/core/resources/observation_go_proto"
+	ppb "github.com/google/fhir/go/proto/google/fhir/proto/r4/core/resources/patient_go_proto"
+	"github.com/verily-src/fhirpath-go/internal/fhir"
 	"github.com/verily-src/fhirpath-go/fhirpath"
 	"github.com/verily-src/fhirpath-go/fhirpath/evalopts"
 	"github.com/verily-src/fhirpath-go/fhirpath/system"
@@ -60,6 +64,37 @@ var c06Forms = []c06Form{
 	{"M", "function", "'ab'.toChars()", "'ab'.toChars()"},
 }
 
+// c06Forms2: operand forms over an input collection of several resources of one type (the
+// fixture Patient, a copy with active=false / deceased=true, and an Observation): a path rooted
+// at the type name ranges over every Patient of the input.
+var c06Forms2 = []c06Form{
+	{"M", "fhir-element-of-several-resources", "Patient.active", ""},
+	{"M", "fhir-element-of-several-resources", "Patient.deceased", ""},
+	{"M", "fhir-element-of-several-resources", "Patient.gender", ""},
+	{"M", "fhir-element-of-several-resources", "Patient.active.not()", ""},
+	{"T", "fhir-element-of-several-resources", "Patient.active.first()", ""},
+	{"F", "fhir-element-of-several-resources", "Patient.active.last()", ""},
+	{"T", "fhir-element-of-several-resources", "Patient.deceased.last()", ""},
+	{"E", "fhir-element-of-several-resources", "Patient.photo", ""},
+	{"F", "fhir-element-of-several-resources", "Patient.active.allTrue()", ""},
+	{"T", "fhir-element-of-several-resources", "Patient.active.anyTrue()", ""},
+	{"T", "fhir-element-of-several-resources", "Observation.exists()", ""},
+	{"N", "fhir-element-of-several-resources", "Observation.status", ""},
+	{"N", "fhir-element-of-several-resources", "Patient.birthDate.first()", ""},
+	{"T", "literal", "true", ""},
+	{"F", "literal", "false", ""},
+	{"E", "literal", "{}", ""},
+	{"M", "variable", "%tf", ""},
+}
+
+func c06Input2() []fhir.Resource {
+	p1, p2 := fixturePatient(), fixturePatient()
+	p2.Active = &dtpb.Boolean{Value: false}
+	p2.Deceased = &ppb.Patient_DeceasedX{Choice: &ppb.Patient_DeceasedX_Boolean{Boolean: &dtpb.Boolean{Value: true}}}
+	o := &opb.Observation{Status: &opb.Observation_StatusCode{Value: cpb.ObservationStatusCode_FINAL}}
+	return []fhir.Resource{p1, o, p2}
+}
+
 func c06Vars() map[string]any {
 	p := fixturePatient()
 	v := progVarsFor(p)
@@ -81,6 +116,7 @@ type c06Case struct {
 	Src  string  `json:"src,omitempty"` // law: left program
 	Src2 string  `json:"src2,omitempty"`
 	Law  string  `json:"law,omitempty"`
+	Two  bool    `json:"two,omitempty"` // the input holds several resources (forms of c06Forms2)
 }
 
 func c06Enum(yield func(c06Case)) {
@@ -92,6 +128,16 @@ func c06Enum(yield func(c06Case)) {
 		}
 		for _, k := range []string{"not", "where", "exists", "all", "iif", "iif2", "asbool"} {
 			yield(c06Case{Kind: k, A: a})
+		}
+	}
+	for _, a := range c06Forms2 {
+		for _, b := range c06Forms2 {
+			for _, op := range []string{"and", "or", "xor", "implies"} {
+				yield(c06Case{Kind: "bin", Op: op, A: a, B: b, Two: true})
+			}
+		}
+		for _, k := range []string{"not", "iif", "iif2", "asbool"} {
+			yield(c06Case{Kind: k, A: a, Two: true})
 		}
 	}
 }
@@ -176,6 +222,9 @@ func c06Run(ctx *Ctx, c c06Case) {
 	vars := c06Vars()
 	pat := fixturePatient()
 	input := fixtureInput(pat)
+	if c.Two {
+		input = c06Input2()
+	}
 	nontrivial := c.A.Src != "literal" || (c.Kind == "bin" && c.B.Src != "literal")
 	var src, want string
 	switch c.Kind {
@@ -204,7 +253,7 @@ func c06Run(ctx *Ctx, c c06Case) {
 		src = c.A.Expr
 		want = map[string]string{"T": "T", "F": "F", "E": "F", "err": "err"}[c06Val(c.A)]
 	}
-	key := fmt.Sprintf("%s|%s|%s|%s", c.Kind, c.Op, c.A.Expr, c.B.Expr)
+	key := fmt.Sprintf("%s|%s|%s|%s|%v", c.Kind, c.Op, c.A.Expr, c.B.Expr, c.Two)
 	ctx.Eval(key, nontrivial, "kind:"+c.Kind, "a:"+c.A.V+"/"+c.A.Src)
 	var got string
 	if c.Kind == "asbool" {
@@ -317,7 +366,7 @@ func c06RunLaw(ctx *Ctx, c c06Case) {
 
 func TestC06(t *testing.T) {
 	r := newRec("C06",
-		"exhaustive over operand forms: a form is (value ∈ {true,false,empty,non-Boolean singleton,multi-item}) × (source ∈ {literal, FHIR boolean element, FHIR choice element, FHIR element variable, System variable, computed, function result, absent path}); {and,or,xor,implies} × every ordered pair of the forms, not() and the criteria of where/exists/all/iif and EvaluateAsBool × every form; plus rapid-generated nested formulas (depth ≤ 3) for commutativity, De Morgan, implies-as-or and double negation.  Cells that cannot exist (a multi-item literal, an empty FHIR element) are absent from the table.  non-trivial = at least one operand is not a literal (laws: formula longer than 20 characters with a non-error value); every cell is distinct",
+		"exhaustive over operand forms: a form is (value ∈ {true,false,empty,non-Boolean singleton,multi-item}) × (source ∈ {literal, FHIR boolean element, FHIR choice element, FHIR element variable, System variable, computed, function result, absent path}); {and,or,xor,implies} × every ordered pair of the forms, not() and the criteria of where/exists/all/iif and EvaluateAsBool × every form; plus rapid-generated nested formulas (depth ≤ 3) for commutativity, De Morgan, implies-as-or and double negation.  A second table repeats the operators, not(), iif and EvaluateAsBool over an input of several resources (two Patients with different values and an Observation), where a path rooted at the type name ranges over all of them.  Cells that cannot exist (a multi-item literal, an empty FHIR element) are absent from the table.  non-trivial = at least one operand is not a literal (laws: formula longer than 20 characters with a non-error value); every cell is distinct",
 		"Kleene truth tables as printed in FHIRPath N1 §6.5")
 	runProperty(t, r,
 		Stage[c06Case]{Name: "cells", Enum: c06Enum, Run: c06Run},
